@@ -11,9 +11,9 @@
 //@ harness: name=c14_companion_rc prop=C14 unit=C14.companion_rc mode=bounded bound="at most 3 watchpoints share one end-of-scope breakpoint" fn="BreakpointRegistry::decrease_companion_rc (reference-count decision)" timeout=600
 //@ assume: C14.companion_rc: `self.remove_by_num` is replaced by a recorder; the companion is found by `values_mut().find(..)` over a std HashMap (not verified)
 //@ anchor: src/debugger/breakpoint.rs :: impl Breakpoint / fn new_watchpoint_companion
-//@ fragment: NEWCOMP :: src/debugger/breakpoint.rs :: impl Breakpoint / fn new_watchpoint_companion :: `let` .. `^Self::new_inner(`
+//@ fragment: NEWCOMPALL :: src/debugger/breakpoint.rs :: impl Breakpoint / fn new_watchpoint_companion :: `BEGIN` .. `END`
 //@ harness: name=c14_companion_new prop=C14,C02 unit=C14.companion_new mode=complete fn="Breakpoint::new_watchpoint_companion (number / watchpoint-list decision)" timeout=600
-//@ assume: C14.companion_new: the registry is a one-slot map with the call shape of BreakpointRegistry::get_enabled; the statements up to the call of Self::new_inner are spliced verbatim, the call itself is replaced by returning its (number, list) arguments
+//@ assume: C14.companion_new: the registry is a one-slot map with the call shape of BreakpointRegistry::get_enabled; the whole body is spliced verbatim into an impl whose `Self::new_inner` records the (number, watchpoint list) arguments of the real constructor call
 //@ harness: name=c02_enable prop=C02 unit=C02.patch.enable mode=complete fn="Breakpoint::enable"
 //@ harness: name=c02_disable prop=C02 unit=C02.patch.disable mode=complete fn="Breakpoint::disable"
 //@ harness: name=c02_roundtrip prop=C02 unit=C02.patch.roundtrip mode=complete fn="Breakpoint::enable, Breakpoint::disable"
@@ -264,9 +264,16 @@ impl RegistryOne {
     }
 }
 
-fn companion_parts(registry: &RegistryOne, wp_num: u32, addr: RelocatedAddress) -> (u32, Vec<u32>) {
-    /*@@FRAGMENT:NEWCOMP*/
-    (brkpt_num, wp_nums)
+/// stands for `Self::new_inner(addr, pid, number, None, BrkptType::WatchpointCompanion(list), PathBuf::default())`:
+/// records the breakpoint number and the watchpoint list the real call receives
+struct NewInnerArgs { number: u32, list: Vec<u32> }
+impl NewInnerArgs {
+    fn new_inner(_addr: RelocatedAddress, _pid: Pid, number: u32, _place: Option<PlaceDescriptorOwned>, ty: BrkptType, _file: PathBuf) -> NewInnerArgs {
+        match ty { BrkptType::WatchpointCompanion(list) => NewInnerArgs { number, list }, _ => panic!("C14.companion_new.E0 a companion is created") }
+    }
+    fn companion(registry: &RegistryOne, wp_num: u32, addr: RelocatedAddress, pid: Pid) -> NewInnerArgs {
+        /*@@FRAGMENT:NEWCOMPALL*/
+    }
 }
 
 #[kani::proof]
@@ -284,7 +291,8 @@ fn c14_companion_new() {
     existing.number = n0;
     if is_companion { existing.r#type = BrkptType::WatchpointCompanion(vec![w0]); }
     let reg = RegistryOne { slot: existing };
-    let (num, list) = companion_parts(&reg, wp, RelocatedAddress::from(a));
+    let made = NewInnerArgs::companion(&reg, wp, RelocatedAddress::from(a), Pid::from_raw(1));
+    let (num, list) = (made.number, made.list);
     if same && is_companion {
         assert!(num == n0, "C14.companion_new.E1 a second watchpoint of the same scope shares the existing end-of-scope breakpoint (same number, so the reference count can find it)");
         assert!(list.len() == 2 && list[0] == w0 && list[1] == wp, "C14.companion_new.E2 the new watchpoint is added to the companion's list, the earlier ones are kept");
